@@ -3,6 +3,7 @@ import HappyModel.C12.Paxos
 import HappyModel.C12.Spec
 import HappyModel.C12.Lock
 import HappyModel.C12.MultiPaxos
+import HappyModel.C12.MPObs
 import HappyModel.C12.Election
 /-! Line-protocol driver for C12 (see `hv/props/c12.py` for the other side).
 
@@ -10,6 +11,10 @@ Modes
 * `paxos <variant> <n> <q1> <q2>` — body: one schedule entry per line (the events the real engine
   delivered, in delivery order); output: the model's transcript in the format of `impl_paxos`.
 * `judge-inst <prefix>` — body: `proposed v` / `rep node v|-` / `fut id v` lines.
+* `mpaxos <flex> <n> <q1> <q2>` — Multi-Paxos / Flexible Paxos schedule replay (phase 1 uses q1, commit uses q2).
+* `judge-log <prefix> <n> <q1> <q2> <acks|strict>` — body: `sub` / `com` / `fut` lines plus the quorum
+  observations `prop` / `acc` / `ack` / `prom` (`Spec.LogObs`); the commit rule and the phase-1 rule are
+  judged first (their signatures are independent of the per-slot agreement signatures).
 -/
 namespace HappyModel.C12.Driver
 open HappyModel.Proto HappyModel.C12
@@ -317,7 +322,44 @@ end election
 
 /-- judge for a replicated log: `sub fid cmd` / `com node c1 c2 …` (committed commands of a node after
     a step, in slot order) / `fut fid slot val`. One `Spec.Inst` per slot. -/
-def judgeLogBlock (pfx : String) (body : List String) : List String :=
+def parseLogObs (n : Nat) (body : List String) : List Spec.LogObs :=
+  body.filterMap fun l =>
+    match toks l with
+    | ["prop", p, b, slot, cmd] => some (.prop (natD p) (parseB n b) (natD slot) (natD cmd))
+    | ["acc", d, b, slot, cmd] => some (.acc (natD d) (parseB n b) (natD slot) (natD cmd))
+    | ["ack", p, slot, ci0, ci1, b, cmd] =>
+      some (.ack (natD p) (natD slot) (natD ci0) (natD ci1) (parseB n b) (natD cmd))
+    | ["prom", p, bn, l0, l1] => some (.prom (natD p) (natD bn) (l0 == "1") (l1 == "1"))
+    | _ => none
+
+/-- detail for a commit-rule violation: the first `ack` observation that is a commit by the leader
+    with too few acknowledgements / distinct acceptors -/
+def firstBadCommit (q2 : Nat) (strict : Bool) : List Spec.LogObs → List Spec.LogObs → String
+  | _, [] => ""
+  | hist, o :: rest =>
+    let bad := !Spec.commitAcksOk q2 hist o || (strict && !Spec.commitStrictOk q2 hist o)
+    match bad, o with
+    | true, .ack p slot ci0 ci1 b cmd =>
+      s!"node {p} slot {slot} commit {ci0}->{ci1} acks {1 + (Spec.ackCnt hist p slot + 1)} " ++
+      s!"distinct-acceptors {(Spec.accepters hist b slot cmd).length} q2 {q2}"
+    | _, _ => firstBadCommit q2 strict (o :: hist) rest
+
+/-- detail for a phase-1 violation -/
+def firstBadLeader (q1 : Nat) : List Spec.LogObs → List Spec.LogObs → String
+  | _, [] => ""
+  | hist, o :: rest =>
+    match !Spec.leaderOk q1 hist o, o with
+    | true, .prom p bn _ _ => s!"node {p} ballot-number {bn} responses {Spec.promCnt hist p bn + 1} q1 {q1}"
+    | _, _ => firstBadLeader q1 (o :: hist) rest
+
+def judgeLogBlock (pfx : String) (n q1 q2 : Nat) (strict : Bool) (body : List String) : List String :=
+  let obs := parseLogObs n body
+  match Spec.judgeCommit pfx q2 strict obs with
+  | some sig => [s!"viol {sig} {firstBadCommit q2 strict [] obs}"]
+  | none =>
+  match Spec.judgeLeader pfx q1 obs with
+  | some sig => [s!"viol {sig} {firstBadLeader q1 [] obs}"]
+  | none =>
   let subs : List (Nat × Nat) := body.filterMap fun l =>
     match toks l with | ["sub", f, c] => some (natD f, natD c) | _ => none
   let coms : List (Nat × List Nat) := body.filterMap fun l =>
@@ -350,7 +392,8 @@ def handle (hdr : List String) (body : List String) : List String :=
   | ["judge-inst", pfx] => judgeInstBlock pfx body
   | ["lock", maxW] => runLock (natD maxW) body
   | ["mpaxos", flex, n, q1, q2] => runMP (flex == "1") (natD n) (natD q1) (natD q2) body
-  | ["judge-log", pfx] => judgeLogBlock pfx body
+  | ["judge-log", pfx] => judgeLogBlock pfx 0 0 0 false body
+  | ["judge-log", pfx, n, q1, q2, mode] => judgeLogBlock pfx (natD n) (natD q1) (natD q2) (mode == "strict") body
   | ["election", strat] => runElection strat body
   | ["judge-election"] => judgeElectionBlock body
   | ["judge-lock"] => judgeLockBlock body
